@@ -58,7 +58,7 @@ RULE = (
     "(VERTEX n=1..6 | OBJECT) x length (equal / shorter incl. 0 / longer) x profile (all representable | exactly one "
     "unrepresentable element | boundary soup), elements from the per-dtype boundary set {0, +-1, +-2^31, +-(2^31+-1), "
     "2^32(+-1), +-2^63(-1), 2^64-1, ndv sentinels and neighbours, +-inf, nan, -0.0, sub-normals, max}, through add_data "
-    "or the values setter, 1-D or 2-D; text: ASCII/BMP/astral/combining/surrogate/NUL strings as str, bytes, 'U' and 'S' "
+    "or the values setter, 1-D or N-D (shapes (n,2), (2,n), (n,1), (1,n), (k,2), (n,1,1), (n,3), (2,2,2), 0-d; entries counted on the flattened array); text: ASCII/BMP/astral/combining/surrogate/NUL strings as str, bytes, 'U' and 'S' "
     "arrays; map: dicts with valid, negative, >= 2^32, non-int keys, non-str labels, key 0 with and without 'Unknown', "
     "boolean maps, followed by 0-4 assignments; blob: byte strings incl. NULs and all 256 values; non-trivial = a no-data "
     "gap, a boundary magnitude (|v| >= 2^31-1 or sentinel neighbour), a non-ASCII string, a refused input, or a map "
@@ -244,6 +244,15 @@ def gen_num(rng):
         ln = rng.range(0, nv - 1) if nv > 1 else 0
     else:
         ln = nv + rng.range(1, 2)
+    # N-d input: the number of entries is the size of the flattened array whatever the shape
+    dims = None
+    if dt not in ("object", "str") and rng.chance(24):
+        kind = rng.weighted([("n2", 22), ("2n", 18), ("n1", 14), ("1n", 14), ("k2", 10), ("0d", 10), ("n11", 4), ("n3", 4), ("222", 4)])
+        dims = {"n2": [nv, 2], "2n": [2, nv], "n1": [nv, 1], "1n": [1, nv], "k2": [max(1, nv // 2), 2], "0d": [], "n11": [nv, 1, 1],
+                "n3": [nv, 3], "222": [2, 2, 2]}[kind]
+        ln = 1
+        for k in dims:
+            ln *= k
     profile = rng.weighted([("valid", 45), ("onebad", 33), ("soup", 22)])
     if dt in IDT:
         pool = i_pool(dt)
@@ -270,9 +279,12 @@ def gen_num(rng):
     if dt in ("complex128", "object") and rng.chance(15):
         typed = False  # validate_data_type refuses: NotImplementedError
     via = "setter" if rng.chance(25) and typed else "add_data"
-    two_d = ln >= 2 and ln % 2 == 0 and rng.chance(12) and dt not in ("object", "str")
+    if dims is None and ln >= 2 and ln % 2 == 0 and rng.chance(6) and dt not in ("object", "str"):
+        dims = [ln // 2, 2]
+    if dims == []:
+        typed = True
     return {"kind": "num", "cls": cls, "dtype": dt, "assoc": assoc, "n": n, "vals": [enc_el(x) for x in els], "typed": typed,
-            "via": via, "two_d": two_d, "profile": profile}
+            "via": via if typed else "add_data", "shape": dims, "profile": profile}
 
 
 S_ASCII = ["abc", "", "x", "Unknown", "a b", "tab\tnl\n", "q\"\\"]
@@ -425,9 +437,12 @@ def gen_json(rng):
 
 FIXED = [
     # the probe of DESIGN section 8: int64 2**31
-    {"kind": "num", "cls": "INTEGER", "dtype": "int64", "assoc": "VERTEX", "n": 2, "vals": [2**31, 5], "typed": False, "via": "add_data", "two_d": False, "profile": "onebad"},
-    {"kind": "num", "cls": "FLOAT", "dtype": "float64", "assoc": "VERTEX", "n": 4, "vals": ["nan", "x:%d" % fbits(0.1), "ndv"], "typed": False, "via": "add_data", "two_d": False, "profile": "soup"},
-    {"kind": "num", "cls": "FLOAT", "dtype": "complex128", "assoc": "VERTEX", "n": 1, "vals": [["i:1", "i:2"]], "typed": True, "via": "add_data", "two_d": False, "profile": "onebad"},
+    {"kind": "num", "cls": "INTEGER", "dtype": "int64", "assoc": "VERTEX", "n": 2, "vals": [2**31, 5], "typed": False, "via": "add_data", "shape": None, "profile": "onebad"},
+    {"kind": "num", "cls": "FLOAT", "dtype": "float64", "assoc": "VERTEX", "n": 4, "vals": ["nan", "x:%d" % fbits(0.1), "ndv"], "typed": False, "via": "add_data", "shape": None, "profile": "soup"},
+    {"kind": "num", "cls": "FLOAT", "dtype": "complex128", "assoc": "VERTEX", "n": 1, "vals": [["i:1", "i:2"]], "typed": True, "via": "add_data", "shape": None, "profile": "onebad"},
+    # 12 entries in a (6, 2) array for 6 vertices: the entries are counted after flattening
+    {"kind": "num", "cls": "FLOAT", "dtype": "float64", "assoc": "VERTEX", "n": 6, "vals": ["i:%d" % i for i in range(12)], "typed": False, "via": "add_data", "shape": [6, 2], "profile": "valid"},
+    {"kind": "num", "cls": "INTEGER", "dtype": "int32", "assoc": "VERTEX", "n": 6, "vals": list(range(12)), "typed": True, "via": "setter", "shape": [6, 2], "profile": "valid"},
     {"kind": "map", "d": [[1, cps("one")], [2**32 + 1, cps("big")]], "ops": []},
     {"kind": "map", "d": [[0, cps("Unknown")], [2**32, cps("big")]], "ops": []},
     {"kind": "text", "form": "arrU", "assoc": "VERTEX", "n": 2, "val": [cps("a"), cps("b"), cps("c")]},
@@ -472,8 +487,8 @@ def _mk_array(case):
         a = np.array([{"k": v} for v in vals] or [], dtype=object)
     else:
         a = np.array([str(v) for v in vals], dtype="U3")
-    if case.get("two_d"):
-        a = a.reshape(-1, 2)
+    if case.get("shape") is not None:
+        a = a.reshape(tuple(case["shape"]))
     return a
 
 
@@ -812,11 +827,16 @@ def _num_term(case, obs):
     if case["dtype"] == "uint64" and case["cls"] in ("INTEGER", "REFERENCED") and MODEL_VER == "Old" \
             and any(abs(int(v)) > 2**53 for v in case["vals"]):
         return None  # float64 rounding of a padded uint64 array is not modelled in the pre-repair model
-    tail = "%s %s %s" % ("AVertex" if case["assoc"] == "VERTEX" else "AObject", cnat(case["n"] if case["assoc"] == "VERTEX" else 1), _arr_term(case))
+    av = "%s %s" % ("AVertex" if case["assoc"] == "VERTEX" else "AObject", cnat(case["n"] if case["assoc"] == "VERTEX" else 1))
     if case["typed"]:
-        head = "agree_num %s %s %s" % (MODEL_VER, COQ_CLS[case["cls"]], tail)
+        if case.get("shape") is not None:
+            head = "agree_num_nd %s %s %s %s %s" % (MODEL_VER, COQ_CLS[case["cls"]], av, clist(cnat(k) for k in case["shape"]), _arr_term(case))
+        else:
+            head = "agree_num %s %s %s %s" % (MODEL_VER, COQ_CLS[case["cls"]], av, _arr_term(case))
     else:
-        head = "agree_untyped %s %s" % (MODEL_VER, tail)  # validate_data_type infers the class from the dtype, or refuses
+        if case.get("shape") == []:
+            return None
+        head = "agree_untyped %s %s %s" % (MODEL_VER, av, _arr_term(case))  # validate_data_type infers the class from the dtype, or refuses
     if "store_err" in obs:
         e = cerr(obs["store_err"])
         return "false" if e is None else "%s (OStoreErr %s)" % (head, e)
@@ -939,8 +959,10 @@ def case_term(case, obs):
 def model_term(case):
     k = case["kind"]
     if k == "num" and (case["typed"] or case["dtype"] in IDT or case["dtype"] in FDT or case["dtype"] == "bool"):
-        return "run_num %s %s %s %s %s" % (MODEL_VER, COQ_CLS[case["cls"]], "AVertex" if case["assoc"] == "VERTEX" else "AObject",
-                                           cnat(case["n"] if case["assoc"] == "VERTEX" else 1), _arr_term(case))
+        return "run_num_nd %s %s %s %s %s %s" % (MODEL_VER, COQ_CLS[case["cls"]], "AVertex" if case["assoc"] == "VERTEX" else "AObject",
+                                                 cnat(case["n"] if case["assoc"] == "VERTEX" else 1),
+                                                 clist(cnat(k) for k in (case.get("shape") if case.get("shape") is not None else [len(case["vals"])])),
+                                                 _arr_term(case))
     if k == "map":
         return "run_map utf8_enc utf8_dec %s %s %s" % (MODEL_VER, _cdict(case["d"]), _cdict(case["ops"]))
     return None
@@ -1211,7 +1233,7 @@ def nontrivial(case, obs):
 
 def histogram(cases, obs):
     h = {"kind": {}, "num_class_dtype": {}, "num_profile": {}, "num_length": {}, "num_outcome": {}, "text_form": {}, "text_outcome": {},
-         "map_outcome": {}, "map_ops": {}, "blob_outcome": {}, "refused_representable": 0, "via_setter": 0, "two_d": 0}
+         "map_outcome": {}, "map_ops": {}, "blob_outcome": {}, "refused_representable": 0, "via_setter": 0, "num_shape": {}}
 
     def inc(d, k):
         d[k] = d.get(k, 0) + 1
@@ -1228,7 +1250,9 @@ def histogram(cases, obs):
             inc(h["num_length"], ("short" if len(c["vals"]) < nv else "long" if len(c["vals"]) > nv else "equal") + "/" + c["assoc"])
             inc(h["num_outcome"], out)
             h["via_setter"] += c["via"] == "setter"
-            h["two_d"] += bool(c["two_d"])
+            sh = c.get("shape")
+            inc(h["num_shape"], "1-d" if sh is None else "0-d" if sh == [] else
+                "%d-d %s" % (len(sh), "oversize" if len(c["vals"]) > nv else "fits"))
             els = [_dec_el(c, v) for v in c["vals"]]
             if "store_err" in o and c["dtype"] not in ("object", "str") and all(representable(c["cls"], x) for x in els) \
                     and not (len(els) > nv and c["assoc"] != "OBJECT"):
